@@ -97,3 +97,7 @@ func TestC06MainWiringConcurrent(t *testing.T) {
 		hx.Class("main-wiring-concurrent:" + strategy)
 	})
 }
+
+// A gRPC call is carried by a connection to its own target, whatever other targets the process
+// has connections to (several instances on one host differ only in the port).
+func TestC06GRPCCallsReachTheirOwnTarget(t *testing.T) { TestC04GRPCShares(t) }
